@@ -224,8 +224,10 @@ def _smt_string_to_bytes(s):
     return bytes(out)
 
 
-def _consts(e, memo):
-    k = e.get_id()
+def _consts(e, memo, opaque=False):
+    """Constants of a term.  With `opaque`, an application of an uninterpreted function is ONE symbol (its arguments are not visited):
+    two hypotheses about SPLIT(data, sep)[i] share that symbol, but neither is thereby related to every hypothesis about `data`."""
+    k = (e.get_id(), opaque)
     if k in memo:
         return memo[k]
     out = set()
@@ -236,20 +238,27 @@ def _consts(e, memo):
         if x.get_id() in seen:
             continue
         seen.add(x.get_id())
-        if z3.is_app(x) and x.num_args() == 0 and x.decl().kind() == z3.Z3_OP_UNINTERPRETED:
-            out.add(x.decl().name())
+        if z3.is_app(x) and x.decl().kind() == z3.Z3_OP_UNINTERPRETED:
+            if x.num_args() == 0:
+                out.add(x.decl().name())
+                continue
+            if opaque:
+                out.add(f"{x.decl().name()}#{x.get_id()}")
+                continue
         stack.extend(x.children())
     memo[k] = out
     return out
 
 
 def _relevant(hyps, goal, depth=99):
-    """Hypotheses within `depth` sharing steps of the goal's constants (depth 0: those that share a constant with the goal)."""
+    """Hypotheses within `depth` sharing steps of the goal's symbols (depth 0: those that share a symbol with the goal).  Below depth 99
+    applications of uninterpreted functions count as single symbols."""
     memo = {}
-    sym = set(_consts(goal, memo))
+    opaque = depth < 99
+    sym = set(_consts(goal, memo, opaque))
     if not sym and hyps:
-        sym = set(_consts(hyps[-1], memo))  # goal `False` (an infeasible raising path): seed with the raise condition
-    hs = [(h, _consts(h, memo)) for h in hyps]
+        sym = set(_consts(hyps[-1], memo, opaque))  # goal `False` (an infeasible raising path): seed with the raise condition
+    hs = [(h, _consts(h, memo, opaque)) for h in hyps]
     chosen = [False] * len(hs)
     for rnd in range(depth + 1):
         new = set()
